@@ -57,6 +57,7 @@ sexp kit_any_fixnum(void);
 
 /* C02(B) collection model (env.c, -DKIT_GC_MODEL) */
 void kit_gc_root(sexp x);
+void kit_gc_root_record(sexp x, int nslots);
 extern int kit_gc_collections, kit_gc_n;
 
 /* exception model bookkeeping */
